@@ -71,6 +71,7 @@ const (
 type balloons struct {
 	options   *policy.BackendOptions // configuration common to all policies
 	bpoptions *BalloonsOptions       // balloons-specific configuration
+	rawopts   *BalloonsOptions       // bpoptions as given, before filling in defaults and built-in types
 	cch       cache.Cache            // nri-resource-policy cache
 	allowed   cpuset.CPUSet          // bounding set of CPUs we're allowed to use
 	reserved  cpuset.CPUSet          // system-/kube-reserved CPUs
@@ -1236,8 +1237,11 @@ func (p *balloons) Reconfigure(newCfg interface{}) error {
 		log.Debug("effective configuration:\n%s\n", utils.DumpJSON(p.bpoptions))
 	}()
 	newBalloonsOptions := balloonsOptions.DeepCopy()
-	if !changesBalloons(p.bpoptions, newBalloonsOptions) {
-		if !changesCpuClasses(p.bpoptions, newBalloonsOptions) {
+	// Compare the new configuration with the current one as it was
+	// given. p.bpoptions has defaults and built-in balloon types filled
+	// in, so it never equals a configuration that is yet to be applied.
+	if !changesBalloons(p.rawopts, newBalloonsOptions) {
+		if !changesCpuClasses(p.rawopts, newBalloonsOptions) {
 			log.Info("no configuration changes")
 		} else {
 			log.Info("configuration changes only on CPU classes")
@@ -1246,9 +1250,13 @@ func (p *balloons) Reconfigure(newCfg interface{}) error {
 			// must be kept in use, because each Balloon
 			// instance holds a direct reference to its
 			// BalloonDef.
-			for i := range p.bpoptions.BalloonDefs {
-				p.bpoptions.BalloonDefs[i].CpuClass = newBalloonsOptions.BalloonDefs[i].CpuClass
+			for _, newBlnDef := range newBalloonsOptions.BalloonDefs {
+				if blnDef := p.balloonDefByName(newBlnDef.Name); blnDef != nil {
+					blnDef.CpuClass = newBlnDef.CpuClass
+				}
 			}
+			p.bpoptions.IdleCpuClass = newBalloonsOptions.IdleCpuClass
+			p.rawopts = newBalloonsOptions
 			// (Re)configures all CPUs in balloons.
 			if err := p.resetCpuClass(); err != nil {
 				log.Warnf("failed to reset CPU class: %v", err)
@@ -1354,6 +1362,7 @@ func (p *balloons) validateConfig(bpoptions *BalloonsOptions) error {
 
 // setConfig takes new balloon configuration into use.
 func (p *balloons) setConfig(bpoptions *BalloonsOptions) error {
+	rawopts := bpoptions.DeepCopy()
 	bpoptions = bpoptions.DeepCopy()
 
 	// Handle AvailableResources.cpus, if defined.
@@ -1396,6 +1405,7 @@ func (p *balloons) setConfig(bpoptions *BalloonsOptions) error {
 	p.balloons = []*Balloon{}
 	p.freeCpus = p.allowed.Clone()
 	p.bpoptions = bpoptions
+	p.rawopts = rawopts
 
 	// Create balloon instances in the order of AllocatorPriority.
 	for allocPrio := cpuallocator.CPUPriority(0); allocPrio <= cpuallocator.NumCPUPriorities; allocPrio++ {
